@@ -632,6 +632,7 @@ def weave_fn(item_text, key, contract, mode, em, no_requires=False, no_ensures=F
     if c is None:
         em.emit(text, ('fn', key))
         return
+    c = _rename_params(c, key, sig)       # R19
     body = _ref_operands_ufcs(sig, body)  # R62
     # --- return type
     sig = sig.rstrip()
@@ -1211,9 +1212,71 @@ def skeleton(text):
     return hashlib.sha256(' '.join(toks).encode()).hexdigest()[:12], len(toks)
 
 
+def _param_names(text):
+    try:
+        t = strip_attrs_and_comments(text)
+        sig = t[:t.index('{')] if '{' in t else t
+        return [nm for (nm, ty, slf) in parse_sig(sig)['params'] if not slf]
+    except Exception:
+        return None
+
+
 def _fn_meta(it, src):
     sk, n = skeleton(it.text)
-    return {'src': src, 'sha256': hashlib.sha256(it.text.encode()).hexdigest()[:16], 'skeleton': sk, 'skeleton_tokens': n}
+    return {'src': src, 'sha256': hashlib.sha256(it.text.encode()).hexdigest()[:16], 'skeleton': sk, 'skeleton_tokens': n,
+            'params': _param_names(it.text)}
+
+
+_SIGS = [None]
+
+
+def _rename_params(c, key, sig):
+    """Contracts name the parameters of the function they were written for.  If the function's parameters were
+    renamed (same number, same order), the names in the contract text are renamed with them; lib/signatures.json
+    (tools/skeletons.py --write) holds the parameter names each contract was written for."""
+    import copy
+    import json as _json
+    if _SIGS[0] is None:
+        try:
+            _SIGS[0] = _json.load(open(os.path.join(VERIF, 'lib', 'signatures.json')))
+        except Exception:
+            _SIGS[0] = {}
+    ref = _SIGS[0].get(key)
+    if not ref:
+        return c
+    try:
+        cur = [nm for (nm, ty, slf) in parse_sig(sig)['params'] if not slf]
+    except Exception:
+        return c
+    if len(cur) != len(ref) or cur == ref:
+        return c
+    mp = {a: b for a, b in zip(ref, cur) if a != b}
+    if not mp or len(set(cur)) != len(cur):
+        return c
+    pat = re.compile(r'(?<![A-Za-z0-9_.])(%s)(?![A-Za-z0-9_])' % '|'.join(re.escape(k) for k in sorted(mp, key=len, reverse=True)))
+
+    def rn(x):
+        if isinstance(x, str):
+            return pat.sub(lambda m: mp[m.group(1)], x)
+        if isinstance(x, tuple):
+            return tuple([x[0]] + [rn(y) for y in x[1:]]) if len(x) == 2 and isinstance(x[0], str) and re.match(r'^[A-Za-z0-9_.]+$', x[0]) else tuple(rn(y) for y in x)
+        if isinstance(x, list):
+            return [rn(y) for y in x]
+        return x
+    c2 = copy.copy(c)
+    for f in ('pre', 'ok', 'ok_d', 'post', 'value', 'entry'):
+        if getattr(c2, f, None) is not None:
+            setattr(c2, f, rn(getattr(c2, f)))
+    loops = []
+    for lp in (c.loops or []):
+        l2 = copy.copy(lp)
+        for f in ('inv', 'dec', 'body_entry', 'ensures', 'inv_eb'):
+            if getattr(l2, f, None) is not None:
+                setattr(l2, f, rn(getattr(l2, f)))
+        loops.append(l2)
+    c2.loops = loops
+    _count('R19.param_rename')
+    return c2
 
 
 def _derives_for(idx, it):
